@@ -69,6 +69,7 @@ type Obligation struct {
 	Solver string            `json:"solver,omitempty"`
 	Ms     int64             `json:"ms"`
 	Model  map[string]string `json:"model,omitempty"`
+	UF     []smt.UFValue     `json:"uf,omitempty"`   // points of harness-level uninterpreted functions in the model
 	Weak   bool              `json:"weak,omitempty"` // model from an abstraction (uf tier / UF heads)
 	Note   string            `json:"note,omitempty"`
 	Path   int               `json:"path"`
@@ -731,6 +732,7 @@ func (in *Interp) check(label string, cond *term.Term) Obligation {
 		in.oblHits++
 	}
 	ob.Status, ob.Tier, ob.Solver, ob.Ms, ob.Weak, ob.Note = cached.Status, cached.Tier, cached.Solver, cached.Ms, cached.Weak, cached.Note
+	ob.UF = cached.UF
 	if hit {
 		ob.Ms = 0
 	}
@@ -795,6 +797,7 @@ func (in *Interp) checkSlice(rel []*term.Term, neg *term.Term) Obligation {
 			ob.Status = "candidate"
 			ob.Weak = true // reals, not floats: must reproduce natively with tolerance
 			ob.Model = in.decodeModel(r.Model, sc.Mode)
+			ob.UF = r.UF
 		default:
 			ob.Status = "inconclusive"
 			ob.Note = r.Note
